@@ -168,6 +168,26 @@ CLAIMED['C06'] = dict(
     technique='contract-based deductive verification: loop invariants over byte-sequence concatenation, generator '
               'pipeline with ghost yield trace, z3/cvc5')
 
+CLAIMED['C11'] = dict(
+    text='Deductive proof: (A) AEBase.update_context_def_list/_build_context_def_list preserve the table invariant '
+         'Inv(n) (keys exactly 1,3,..,2n-1; key 2i+1 holds the i-th configured class with supported_ts) for arbitrary n '
+         'and an arbitrary list of m new classes -- checked at an arbitrary key of the resulting table (engine rule for '
+         'the dictionary comprehension over zip(classes, count(start, 2))); ids <= 255 proved for n+m <= 128 and refuted '
+         'beyond (known finding, reproduced natively with 129 classes); copy_context_def_list returns an equal new '
+         'table. (B) _request with an arbitrary table: AE titles, DICOM application context first, one '
+         'presentation-context item per table entry (pointwise at an arbitrary position: id, abstract syntax, configured '
+         'transfer syntaxes in order), Maximum Length = configured maximum. (C) reply loop, arbitrary iteration: a '
+         'context is entered in accepted_contexts / sop_classes_as_scu iff the answer is an acceptance, with the peer\'s '
+         'transfer syntax and the abstract syntax proposed under that id; provider routes by the same table; reply '
+         'returned. (D) get_scu: partial(service, association, PContextDef(id, class, ts)) iff the table has the class '
+         '(and it is configured as SCU), else ClassNotSupportedError.',
+    ref='4/C11',
+    note=TRUST + LOOPNOTE + 'reply answers carry proposed ids; supported_ts iterated in a fixed order; add_scu/add_scp '
+         'wrappers only in the bounded native audit; engine rules: dict comprehension over zip(seq, count), dict.update '
+         'with an abstract table, chain() around a generator expression over a symbolic sequence (pointwise map)',
+    technique='contract-based deductive verification: data-structure invariant of the context table, pointwise map '
+              'instances, loop invariants, z3/cvc5')
+
 NOT_YET = {
 }
 
